@@ -33,6 +33,8 @@ def handle (op : String) (args : List String) : Option String :=
     | "c02.gen.circle", some [s] => if s < 3 then some "rejected" else some (genOut (circleVerts s) (circleTris s))
     | "c02.gen.cylinder", some [s, t, b] => if s < 3 ∧ (t != 0 ∨ b != 0) then some "rejected" else some (genOut (cylinderVerts s (t != 0) (b != 0)) (cylinderTris s (t != 0) (b != 0)))
     | "c02.gen.cone", some [s] => if s < 3 then some "rejected" else some (genOut (coneVerts s) (coneTris s))
+    | "c02.gen.extrude_shape", some [pl, sd, cl] =>
+        if pl < 2 then some "rejected" else some (genOut (extrudeShapeVerts pl sd) (extrudeShapeTris pl sd (cl != 0)))
     | "c02.gen.quad", some [] => some (genOut quadVerts quadTris)
     | "c02.gen.cube", some [] => some (genOut cubeVerts cubeTris)
     | "c02.gen.cube_unwelded", some [] => some (genOut cubeUnweldedVerts cubeUnweldedTris)
